@@ -34,7 +34,8 @@ LEVEL_NOTE = ("Trusted: transport model, virtual clock.  Requests after a transp
               "request itself is not (that is C04/C09).")
 TECHNIQUE = "deterministic simulation of request histories with scripted per-request fault sequences"
 
-TYPES = ["ok", "drops_ok", "exhaust", "drops_exc", "senderr", "icmp", "rst", "fin", "refused"]
+TYPES = ["ok", "drops_ok", "exhaust", "drops_exc", "senderr", "icmp", "rst", "fin", "refused", "drops_sockerr",
+         "stray_frag"]
 SETTINGS = [(0.5, 1), (1.0, 3), (0.25, 2)]
 SWEEP_LEN = {"quick": 2, "thorough": 3}
 N_RANDOM = {"quick": 25_000, "thorough": 1_000_000}
@@ -48,7 +49,7 @@ _SPACE = {}
 def _types_for(tr):
     if tr == "udp":
         return [t for t in TYPES if t not in ("rst", "fin", "refused")]
-    return [t for t in TYPES if t != "icmp"]
+    return [t for t in TYPES if t not in ("icmp", "drops_sockerr")]
 
 
 def _space(tier):
@@ -91,6 +92,12 @@ def _mkreq(rnd, typ, tau, r, tr, think=None, newloop=False):
          "newloop": newloop}
     if typ in ("drops_ok", "drops_exc"):
         q["k"] = rnd.randint(0 if typ == "drops_exc" else 1, r) if r > 0 else 0
+    if typ == "drops_sockerr":
+        q["k"] = rnd.randint(1, r) if r > 0 else 0
+        q["errno"] = rnd.choice([101, 24])
+    if typ == "stray_frag":
+        q["d"] = rnd.choice([2 * DEFAULT_LATENCY, tau / 2])
+        q["s"] = rnd.choice([5, 7, 9])
     if typ == "drops_exc":
         q["code"] = rnd.choice([1, 2, 3, 4, 6, 77])
     if typ in ("senderr", "icmp"):
@@ -187,6 +194,15 @@ def _script(q, tau, r, tr):
         return [{"k": "drop", "then": [{"ev": t, "d": q["d"]}]}], ok, [], None
     if t == "refused":
         return [], ok, [{"k": "refused", "d": 0.0}], None
+    if t == "drops_sockerr":
+        # k lost transmissions, then creating the socket for the next retry fails (keep-alive off: every retry
+        # opens a new socket; with keep-alive the socket is reused and the script degenerates to k drops then ok)
+        k = min(q["k"], r)
+        return [drop] * k + [ok], ok, [ok] * k + [{"k": "sockerr", "errno": q["errno"]}], None
+    if t == "stray_frag":
+        # answered at once; a stray first fragment of the same answer arrives later on the (possibly idle) socket
+        return [{"k": "ok", "then": [{"ev": "data", "what": "prefix", "s": q["s"], "d": q["d"]}]}], ok, [], \
+            {"tx": 1, "outcome": "result"}
     raise ValueError(t)
 
 
@@ -264,6 +280,10 @@ def run_history(case):
             rec["exp"] = exp
             rec["j"] = j
             recs.append(rec)
+            if q["type"] == "stray_frag":
+                # the stray piece must arrive while the socket is IDLE (during a request it would legitimately
+                # prolong that request's wait, which is not what this history element is about)
+                await asyncio.sleep(q["d"] + 2 * EPS)
 
     status = "ok"
     for items in segs:
